@@ -509,8 +509,14 @@ LegacyView(u, seesHost) ==
    THEN [f \in (DOMAIN u \ {"scheme", "host", "port"}) |-> IF f = "abs" THEN FALSE ELSE u[f]]
    ELSE u
 
+(* (the repaired code, 56bff20, matches Request.URL first -- so a relative server still     *)
+(* answers a server-form request by its path -- and only if no server matches that, the    *)
+(* URL completed with Request.Host and the scheme Request.TLS implies)                     *)
 LegacyObsH(doc, req0, nonEmptyVars, keepSlash, methodGuard, wirePath, seesHost) ==
-   LET req == [req0 EXCEPT !.u = LegacyView(req0.u, seesHost)]
+   LET relU == LegacyView(req0.u, FALSE)
+       S0 == ServersOf(doc)
+       relHit == \E i \in 1..Len(S0) : IsNone(S0[i]) \/ LegacySrvMatch(S0[i], relU)
+       req == IF UForm(req0.u) = "server" /\ (~seesHost \/ relHit) THEN [req0 EXCEPT !.u = relU] ELSE req0
        u == req.u
        S == ServersOf(doc)
        hits == {i \in 1..Len(S) : IF IsNone(S[i]) THEN TRUE ELSE LegacySrvMatch(S[i], u)}
@@ -532,9 +538,12 @@ LegacyObs(doc, req, nonEmptyVars, keepSlash, methodGuard, wirePath) ==
 (*   legacy methodGuard (F-C09-3, unknown-method panic) and mux localServers (F-C09-5, path-level *)
 (*   servers leak) were repaired by fix: commits in /repo; so was legacy wirePath (F-C09-7: the   *)
 (*   fragment is cut off like the query, F-C09-8: the escaped path is matched also without        *)
-(*   servers).  The old behaviours stay expressible through the switches (FALSE).                 *)
-CurLegacyObs(doc, req) == LegacyObsH(doc, req, FALSE, FALSE, TRUE, TRUE, FALSE)
-CurMuxObs(doc, req) == MuxObsP(doc, req, FALSE, TRUE, TRUE)
+(*   servers), legacy seesHost (F-C09-11, 56bff20: a server-form request is completed with        *)
+(*   Request.Host / Request.TLS) and mux portClobbers (F-C09-9, 55b24e0: a port variable no       *)
+(*   longer overwrites a path parameter of its name; now FALSE).  The old behaviours stay          *)
+(*   expressible through the switches, as refuted variants.                                        *)
+CurLegacyObs(doc, req) == LegacyObsH(doc, req, FALSE, FALSE, TRUE, TRUE, TRUE)
+CurMuxObs(doc, req) == MuxObsP(doc, req, FALSE, TRUE, FALSE)
 CurMuxBuilds(doc) == MuxBuilds(doc, TRUE, FALSE)
 
 (* what of an observation the L2 models predict (the rest is left to L1) *)
